@@ -129,38 +129,50 @@ harness!(st_remove__s8_8g0, st_remove, S8_8G0);
 harness!(st_remove__s8_8g4, st_remove, S8_8G4);
 harness!(st_remove__s8_e, st_remove, S8_E);
 
-// ------------------------------------------------- raw entry: replace_entry_with(None)
-fn st_raw_replace_none(sh: Shape) {
+// ------------------------------------------------- raw entry: replace_entry_with(..)
+fn st_raw_replace_with(sh: Shape) {
     let mut m = build_kv(sh, 1);
     assume_distinct(&m);
     let q: u8 = kani::any();
     let k: u8 = kani::any();
+    let ret: Option<u8> = kani::any();
     let pre_q = ref_get(&m, &q);
-    let pre_k = ref_get(&m, &k);
+    let sk = scan(&m, &k);
+    let pre_k = sk.val;
     let n = m.len();
+    let l0 = old_len(&m);
+    reset_counters();
     match m.raw_entry_mut().from_key(&k) {
         RawEntryMut::Occupied(e) => {
             assert!(pre_k.is_some(), "[C12] raw entry Occupied for an absent key");
             match e.replace_entry_with(|kk, vv| {
                 assert!(*kk == k && Some(vv) == pre_k, "[C12] replace_entry_with closure got a wrong element");
-                None
+                ret
             }) {
-                RawEntryMut::Vacant(_) => {}
-                RawEntryMut::Occupied(_) => assert!(false, "[C12] replace_entry_with(None) left the entry occupied"),
+                RawEntryMut::Vacant(_) => assert!(ret.is_none(), "[C12] replace_entry_with(Some) returned a vacant entry"),
+                RawEntryMut::Occupied(e2) => {
+                    assert!(ret.is_some(), "[C12] replace_entry_with(None) left the entry occupied");
+                    assert!(*e2.key() == k && Some(*e2.get()) == ret, "[C12] occupied handle after replace_entry_with designates a wrong element");
+                }
             }
-            assert!(m.len() == n - 1, "[C01] len() wrong after replace_entry_with(None)");
+            assert!(m.len() == n - if ret.is_none() { 1 } else { 0 }, "[C01] len() wrong after replace_entry_with");
         }
         RawEntryMut::Vacant(_) => {
             assert!(pre_k.is_none(), "[C12] raw entry Vacant for a present key");
         }
     }
     let sq = scan(&m, &q);
-    assert!(sq.val == if q == k { None } else { pre_q }, "[C01] contents wrong after replace_entry_with(None)");
+    assert!(sq.val == if q == k && pre_k.is_some() { ret } else { pre_q }, "[C01] contents wrong after replace_entry_with");
+    assert!(hashes() == 1 && acct::allocs() == 0 && acct::inserts() == 0, "[C02] replace_entry_with hashed more than the queried key, allocated or moved elements");
+    assert!(old_len(&m) == l0 - if sk.in_old && pre_k.is_some() && ret.is_none() { 1 } else { 0 }, "[C03] replace_entry_with changed the leftovers unexpectedly");
     post_inv(&m, &sq);
-    kani::cover!(pre_k.is_some(), "cls: occupied");
+    kani::cover!(pre_k.is_some() && sk.in_old && ret.is_none(), "cls: removed an old-table element through replace_entry_with");
+    kani::cover!(pre_k.is_some() && sk.in_old && ret.is_some(), "cls: replaced the value of an old-table element");
+    kani::cover!(pre_k.is_some() && !sk.in_old, "cls: main-table element");
     kani::cover!(true, "reach: end of harness");
     core::mem::forget(m);
 }
-harness!(st_raw_replace_none__s8_8g0, st_raw_replace_none, S8_8G0);
-harness!(st_raw_replace_none__s8_8g4, st_raw_replace_none, S8_8G4);
-harness!(st_raw_replace_none__s8_4a, st_raw_replace_none, S8_4A);
+harness!(st_raw_replace_with__s8_8g0, st_raw_replace_with, S8_8G0);
+harness!(st_raw_replace_with__s8_8g4, st_raw_replace_with, S8_8G4);
+harness!(st_raw_replace_with__s8_4a, st_raw_replace_with, S8_4A);
+harness!(st_raw_replace_with__s8_4one, st_raw_replace_with, S8_4ONE);
